@@ -163,6 +163,16 @@ def run(prog: Program, col: Collector, tier: str, refs: Optional[Refs] = None, c
     col.rule("R04.21", "a term is declared affine in an input only after its op has been tested (affine substitution into Gaussians relies on it)", floor=4)
     _affine_rules_test_op(prog, col, refs, cat)
 
+    # ---------------------------------------------------------------- R04.25
+    col.rule("R04.25", "the set algebra of the affine_inputs rules claims an input affine only where the op's law allows it", floor=6)
+    _affine_calculus(prog, col, refs, cat)
+
+    # ---------------------------------------------------------------- R04.22 / R04.23 (kernels behind substitution of index tensors)
+    from . import kernels
+    kernels.r_aligned_or_same_layout(prog, col, refs, cat, "R04.22")
+    kernels.r_unit_axis_padding(prog, col, refs, cat, "R04.23")
+    kernels.r_index_padding_count(prog, col, refs, cat, "R04.24")
+
     # ---------------------------------------------------------------- R04.3
     col.rule("R04.3", "Subs declares f's unsubstituted inputs plus the inputs of the substituted values", floor=3)
     si = require_func(prog, "funsor.terms::Subs.__init__")
@@ -531,7 +541,21 @@ def _staging(prog: Program, col: Collector, refs: Refs, cat: Catalogue, colls: D
                     ground = bool(positive) and bool(classes) and classes <= GROUND_VALUE_CLASSES
             construct = f"{m.fq}::stage applied before `{norm(rem_arg)}`"
             if ground:
-                col.ok(construct, f"the values of `{stage_arg.id}` are ground (Number / Tensor / Slice): they introduce no name a later pair could rewrite", m.loc())
+                # ground values introduce batch (integer-typed) names only, so the pairs applied afterwards must not be keyed by
+                # integer-typed inputs: the collection whose filter keeps values with `dtype != "real"` may not be in the remainder
+                int_keyed = set()
+                for nm, vs in defs.items():
+                    for v in vs:
+                        for x in ast.walk(v):
+                            if isinstance(x, ast.Compare) and len(x.ops) == 1 and isinstance(x.ops[0], ast.NotEq) and isinstance(x.comparators[0], ast.Constant) \
+                                    and x.comparators[0].value == "real" and isinstance(x.left, ast.Attribute) and x.left.attr == "dtype":
+                                int_keyed.add(nm)
+                later_int = sorted({x.id for x in ast.walk(rem_arg) if isinstance(x, ast.Name) and x.id in int_keyed and x.id != stage_arg.id})
+                col.check(not later_int, construct,
+                          f"the values of `{stage_arg.id}` are ground (Number / Tensor / Slice): they introduce batch names only, and no integer-keyed pair is applied afterwards",
+                          f"the ground values of `{stage_arg.id}` may carry batch inputs, and the integer-keyed pairs `{', '.join(later_int)}` are applied to the result afterwards: "
+                          "g(i=1, x=T) with a tensor T that has an input named i evaluates T at i=1 as well (sequential, not simultaneous, substitution); the integer stage "
+                          "has to come first", f.loc(c))
                 continue
             # open values: look for a clash test in the stage: an `if` that raises / stays lazy and depends on both the stage's pairs
             # and (the remaining pairs or the term's own inputs)
@@ -1265,3 +1289,193 @@ def _affine_rules_test_op(prog: Program, col: Collector, refs: Refs, cat: Catalo
         col.check(bool(tested) or delegates, construct, "the rule tests the op (or rebuilds the term from its ops and asks again)",
                   f"the affine_inputs rule for {tc.name} never looks at `{fn}.{op_fields[0]}`: it reports the operand's affine inputs for every op, so e.g. a max- or product-reduction of x "
                   "is taken to be affine in x and Gaussian substitution treats it as a linear change of variables (wrong density)", f.loc())
+
+
+# ---------------------------------------------------------------------- R04.25 soundness of the affine-inputs calculus
+
+
+class _Stop(Exception):
+    pass
+
+
+LINEAR_UNARY = {"neg", "sum", "ReshapeOp", "GetsliceOp", "reshape", "getslice", "transpose", "permute", "TransposeOp", "PermuteOp", "mean", "MeanOp", "SumOp", "NegOp"}
+ADDITIVE = {"add", "sub"}
+MULTIPLICATIVE = {"mul", "matmul"}
+
+
+def _affine_calculus(prog: Program, col: Collector, refs: Refs, cat: Catalogue):
+    """affine_inputs(f) promises a SOUND subset of the real inputs in which f is (jointly) affine.  The rules for Unary / Binary /
+    Reduce compute that set from `affine_inputs(child)` and `_real_inputs(child)` with set algebra.  The analyser evaluates the set
+    expressions of each op branch over an abstract universe: an input is classified per child as absent / affine / present but not
+    affine, every non-empty population of classes is tried (255 for two children), `if not s:` follows the emptiness of the set.
+    Oracle: a sum is affine in x iff x is affine-or-absent in BOTH operands; a product iff x is affine in one operand and absent
+    from the other, and the inputs claimed must all come from the same side; a quotient iff affine in the numerator and absent from
+    the denominator; a linear unary op / add-reduction keeps the operand's affine inputs."""
+    import itertools
+    n_branches = 0
+    for r in cat.registrations:
+        f = r.target
+        if r.registry != "funsor.affine.affine_inputs" or f is None or not r.pattern or not f.positional or isinstance(r.pattern[0], ast.Subscript):
+            continue
+        head = refs.resolve(r.pattern[0]) if isinstance(r.pattern[0], (ast.Name, ast.Attribute)) else None
+        tc = cat.term_classes.get(head)
+        if tc is None or tc.name not in ("Unary", "Binary", "Reduce"):
+            continue
+        fn = f.positional[0]
+        children = {"Unary": ["arg"], "Binary": ["lhs", "rhs"], "Reduce": ["arg"]}[tc.name]
+        statuses = ["0", "A", "N"]
+        kinds = [k for k in itertools.product(statuses, repeat=len(children)) if any(s != "0" for s in k)]
+
+        def child_of(e):
+            # fn.lhs -> 0, fn.rhs -> 1
+            if isinstance(e, ast.Attribute) and isinstance(e.value, ast.Name) and e.value.id == fn and e.attr in children:
+                return children.index(e.attr)
+            return None
+
+        def ev(e, pop, env):
+            if isinstance(e, ast.Name):
+                if e.id in env:
+                    return env[e.id]
+                raise _Stop(f"name {e.id}")
+            if isinstance(e, ast.Call):
+                tgt = refs.resolve(e.func) or norm(e.func)
+                last = tgt.rsplit(".", 1)[-1]
+                if last == "frozenset" and not e.args:
+                    return frozenset()
+                if last in ("affine_inputs", "_affine_inputs", "_real_inputs") and len(e.args) == 1:
+                    ci = child_of(e.args[0])
+                    if ci is None:
+                        raise _Stop(f"argument {norm(e.args[0])}")
+                    if last == "_real_inputs":
+                        return frozenset(k for k in pop if k[ci] != "0")
+                    return frozenset(k for k in pop if k[ci] == "A")
+                if last == "frozenset" and len(e.args) == 1 and isinstance(e.args[0], ast.GeneratorExp):
+                    return ("names", norm(e))  # a set of other names (reduced variables): only subtracted
+                raise _Stop(f"call {norm(e)[:40]}")
+            if isinstance(e, ast.BinOp) and isinstance(e.op, (ast.BitOr, ast.Sub, ast.BitAnd)):
+                a, b = ev(e.left, pop, env), ev(e.right, pop, env)
+                if isinstance(b, tuple) and isinstance(e.op, ast.Sub):
+                    return a  # removing unrelated names can only shrink the claim
+                if isinstance(a, tuple) or isinstance(b, tuple):
+                    raise _Stop("set of names in a union / intersection")
+                return a | b if isinstance(e.op, ast.BitOr) else a - b if isinstance(e.op, ast.Sub) else a & b
+            raise _Stop(type(e).__name__)
+
+        def run_block(stmts, pop, env):
+            """returns the returned set, or None when the block falls through"""
+            for st in stmts:
+                if isinstance(st, ast.Return):
+                    return ev(st.value, pop, env)
+                if isinstance(st, ast.Assign) and len(st.targets) == 1 and isinstance(st.targets[0], ast.Name):
+                    env[st.targets[0].id] = ev(st.value, pop, env)
+                    continue
+                if isinstance(st, ast.If):
+                    t, neg = st.test, False
+                    while isinstance(t, ast.UnaryOp) and isinstance(t.op, ast.Not):
+                        t, neg = t.operand, not neg
+                    v = ev(t, pop, env)
+                    if isinstance(v, tuple):
+                        raise _Stop("truth of a name set")
+                    truth = bool(v) != neg
+                    out = run_block(st.body if truth else st.orelse, pop, env)
+                    if out is not None:
+                        return out
+                    continue
+                if isinstance(st, ast.Expr) and isinstance(st.value, ast.Constant):
+                    continue
+                raise _Stop(type(st).__name__)
+            return None
+
+        def op_names(test):
+            """the ops a branch test admits: (names, recognised?)"""
+            names = set()
+            t = test
+            parts = t.values if isinstance(t, ast.BoolOp) and isinstance(t.op, ast.Or) else [t]
+            for p in parts:
+                if isinstance(p, ast.Compare) and len(p.ops) == 1 and isinstance(p.ops[0], (ast.Is, ast.Eq, ast.In)) and norm(p.left) == f"{fn}.op":
+                    c = p.comparators[0]
+                    for x in (c.elts if isinstance(c, (ast.Tuple, ast.List, ast.Set)) else [c]):
+                        names.add(norm(x).rsplit(".", 1)[-1])
+                elif isinstance(p, ast.Call) and isinstance(p.func, ast.Name) and p.func.id == "isinstance" and len(p.args) == 2 and norm(p.args[0]) == f"{fn}.op":
+                    c = p.args[1]
+                    for x in (c.elts if isinstance(c, ast.Tuple) else [c]):
+                        names.add(norm(x).rsplit(".", 1)[-1])
+                else:
+                    return None
+            return names
+
+        # top-level statements: `if <test on fn.op>: <body>` ... final `return frozenset()`
+        for st in f.node.body:
+            if isinstance(st, ast.Expr) and isinstance(st.value, ast.Constant):
+                continue
+            if isinstance(st, ast.If):
+                ops_ = op_names(st.test)
+                construct = f"{f.fq}::{tc.name}::if {norm(st.test)[:50]}"
+                if ops_ is None:
+                    col.unresolved(construct, "branch test not recognised as a test on the op", f.loc(st))
+                    continue
+                if st.orelse:
+                    col.unresolved(construct, "else-branch of an op test is not evaluated", f.loc(st))
+                n_branches += 1
+                if tc.name == "Binary":
+                    if ops_ <= ADDITIVE:
+                        def sound(res, pop):
+                            return all(k[0] in "0A" and k[1] in "0A" for k in res)
+                        law = "x is affine in l ± r only if it is affine in (or absent from) BOTH l and r"
+                    elif ops_ <= MULTIPLICATIVE:
+                        def sound(res, pop):
+                            return all(k in (("A", "0"), ("0", "A")) for k in res) and len({k for k in res}) <= 1
+                        law = "x is affine in l * r only if it is affine in one factor and absent from the other, and all claimed inputs come from the same factor"
+                    elif ops_ <= {"truediv"}:
+                        def sound(res, pop):
+                            return all(k == ("A", "0") for k in res)
+                        law = "x is affine in l / r only if it is affine in l and absent from r"
+                    elif ops_ <= {"GetitemOp", "getitem"}:
+                        def sound(res, pop):
+                            return all(k[0] == "A" for k in res)
+                        law = "indexing keeps the affine inputs of the indexed operand"
+                    else:
+                        col.unresolved(construct, f"no law for ops {sorted(ops_)} in the analyser's table", f.loc(st))
+                        continue
+                else:
+                    if tc.name == "Reduce" and not ops_ <= {"add"}:
+                        def sound(res, pop):
+                            return not res
+                        law = "only an add-reduction keeps affinity"
+                    elif tc.name == "Unary" and not ops_ <= LINEAR_UNARY:
+                        col.unresolved(construct, f"unary ops {sorted(ops_ - LINEAR_UNARY)} are not in the analyser's table of linear ops", f.loc(st))
+                        continue
+                    else:
+                        def sound(res, pop):
+                            return all(k[0] == "A" for k in res)
+                        law = "a linear op keeps exactly the affine inputs of its operand"
+                witness = None
+                stopped = None
+                tried = 0
+                for m in range(1, len(kinds) + 1):
+                    for pop in itertools.combinations(kinds, m):
+                        try:
+                            res = run_block(st.body, frozenset(pop), {})
+                        except _Stop as ex:
+                            stopped = str(ex)
+                            break
+                        tried += 1
+                        if res is None:
+                            continue
+                        if isinstance(res, tuple) or not sound(res, pop):
+                            witness = (pop, res)
+                            break
+                    if witness or stopped:
+                        break
+                if stopped:
+                    col.unresolved(construct, f"set expression not evaluated ({stopped})", f.loc(st))
+                    continue
+                def show(k):
+                    return "/".join({"0": "absent", "A": "affine", "N": "non-affine"}[s] + f" in {c}" for s, c in zip(k, children))
+                col.check(witness is None, construct, f"{law} ({tried} populations of input classes evaluated)",
+                          (f"an input that is {' and '.join(show(k) for k in sorted(witness[1]))[:160]} is reported affine (inputs present: "
+                           f"{'; '.join(show(k) for k in witness[0])[:200]}): {law}.  is_affine() then holds for a term that is not affine and Gaussian substitution "
+                           "treats it as a linear change of variables") if witness else "", f.loc(st))
+    col.cur.analysed["affine_rule_branches"] = n_branches
+    if n_branches < 6:
+        raise AnalysisError(f"R04.25: only {n_branches} op branches of the affine_inputs rules were found (6 confirmed by hand in funsor/affine.py)")
